@@ -508,6 +508,12 @@ def _check_calls(prog: Program, res: Result):
             # the vertex loop must run over an element of an outer loop over the parameter (every outline)
             outer = next((o for o in ast.walk(dl.node) if isinstance(o, ast.For) and o is not lp and any(lp is x for x in ast.walk(o))), None)
             every = outer is not None and isinstance(outer.target, ast.Name) and ast.unparse(lp.iter) == outer.target.id and ast.unparse(outer.iter) == dl.params()[0]
+            # the same walk in one loop: chain.from_iterable(outlines) / chain(*outlines)
+            it_ = lp.iter
+            if not every and isinstance(it_, ast.Call) and attr_chain(it_.func) in ("chain.from_iterable", "itertools.chain.from_iterable") and len(it_.args) == 1 and ast.unparse(it_.args[0]) == dl.params()[0]:
+                every = True
+            if not every and isinstance(it_, ast.Call) and attr_chain(it_.func) in ("chain", "itertools.chain") and len(it_.args) == 1 and isinstance(it_.args[0], ast.Starred) and ast.unparse(it_.args[0].value) == dl.params()[0]:
+                every = True
             if not every:
                 continue
             axis = {lp.target.elts[0].id: 0, lp.target.elts[1].id: 1}
@@ -528,6 +534,13 @@ def _check_calls(prog: Program, res: Result):
             rv = rets[0].value
             if isinstance(rv, ast.Name):
                 rv = next((s.value for s in ast.walk(dl.node) if isinstance(s, ast.Assign) and len(s.targets) == 1 and isinstance(s.targets[0], ast.Name) and s.targets[0].id == rv.id), rv)
+            if isinstance(rv, (ast.List, ast.Tuple)) and any(isinstance(e_, ast.Name) for e_ in rv.elts):
+                # corners held in locals bound once to [x, y]: read through them (the accumulators themselves are not expanded)
+                once_ = {}
+                for s in ast.walk(dl.node):
+                    if isinstance(s, ast.Assign) and len(s.targets) == 1 and isinstance(s.targets[0], ast.Name) and isinstance(s.value, (ast.List, ast.Tuple)) and len(s.value.elts) == 2:
+                        once_.setdefault(s.targets[0].id, []).append(s.value)
+                rv = ast.List(elts=[once_[e_.id][0] if isinstance(e_, ast.Name) and len(once_.get(e_.id, [])) == 1 else e_ for e_ in rv.elts], ctx=ast.Load())
             if isinstance(rv, (ast.List, ast.Tuple)) and all(isinstance(e_, (ast.List, ast.Tuple)) and len(e_.elts) == 2 for e_ in rv.elts):
                 xs = {ast.unparse(e_.elts[0]) for e_ in rv.elts}
                 ys = {ast.unparse(e_.elts[1]) for e_ in rv.elts}
